@@ -30,6 +30,8 @@ def autogen_unit(layout, mem_kb=24_000_000):
 
 
 UNITS['autogen_recursive'] = autogen_unit('recursive')
+for _l in ('dex', 'small', 'recursive_with_poseidon', 'starknet'):
+    UNITS['autogen_' + _l] = autogen_unit(_l)
 
 # property -> units per tier, claim text for the manifest
 PROPS = {
@@ -37,6 +39,10 @@ PROPS = {
                 claim='StarkProof::verify is proved to return Ok only if the predicate `accepted` holds: config_ok (C11, integer reading, blow-up >= 2, FRI input = evaluation domain), public input valid, every challenge equal to its Fiat-Shamir spec value, OODS vector of exactly MASK_SIZE+DEGREE values with composition-from-trace == claimed composition AT THE POSITIONS THE DEEP EVALUATION READS, all three table decommitments against the committed roots, FRI input values = DEEP combination of the DECOMMITTED cells with the SAME oods vector, every inner FRI layer decommitted against its root, last layer of 2^bound coefficients agreeing at every query. Generic in the layout through trait-level contracts.',
                 technique='chain of contracts verify -> validate, StarkDomains::new, get_hash, stark_commit -> (traces_commit, table_commit, verify_oods, fri_commit, pow commit), generate_queries, stark_verify -> (traces_decommit, table_decommit, queries_to_points, eval_oods_boundary_poly_at_points, fri_verify -> layers)',
                 note='Not decided: that `accepted` implies existence of a satisfying trace except with negligible probability (DEEP-ALI/FRI soundness, random-oracle Fiat-Shamir). Layout impls are checked against the trait contracts in the layout units (see evidence for which layouts).'),
+    'C02': dict(quick=['core'], thorough=['core'],
+                claim='Tamper-evidence is reduced to machine-checked exact characterisations of every check that reads a proof position: configuration numbers (C11 <=>), vector lengths (oods = MASK+DEGREE exactly, cells = columns x queries exactly, last layer = 2^bound exactly, one FRI root and witness per layer at least, one value per query), decommitted cells / authentication nodes / FRI leaves / roots (table and vector decommitment <=> the Merkle walk yields the committed root; inner FRI layers included), commitments, OODS values, coefficients, nonce and public-input fields (the transcript state is proved to be the absorb chain of exactly these messages in protocol order, so every later challenge is a function of them).',
+                technique='the union of the exact (<=>) postconditions and transcript-script postconditions along the verified call chain of StarkProof::verify',
+                note='Not decided: the literal per-mutant claim "the mutant is rejected" needs (i) hash collision resistance (idealised as injectivity, Merkle binding lemmas not mechanised in this session) and (ii) "a changed challenge leads to rejection except with negligible probability" (probabilistic). Unused trailing vector elements are tolerated, as the statement allows.'),
     'C04': dict(quick=['core'], thorough=['core'],
                 claim='vector_commitment_decommit is proved to succeed exactly when the work-list walk of the statement (spec function root_spec: siblings merged when adjacent, otherwise one authentication node consumed, parents appended, hash chosen by depth vs friendly-layer count, masked hash = low 160/248 bits of H(be32(x)||be32(y))) yields the committed root; missing node <=> Err.',
                 technique='functional postconditions (code == spec walk) on vector_commitment_decommit, compute_root_from_queries (with termination measure), hash_friendly_unfriendly',
